@@ -36,6 +36,13 @@ def _c12_hook(check, failed, mism):
     c12hook.hook(check, failed, mism)
 
 
+CACHE_TRUST = [
+    "file-system step machine Model/Cache.lean: primitive steps open/read/create/createTemp/buffered write/flush/close/rename/remove/run-disassembler, process crash after any step, I/O fault at any step, arbitrary split of buffered output (modelled; validated against the built profiler by run histories on this host)",
+    "the cache-skeleton translator (harness/cmd/vextract/cache.go + skeleton.go): Go statement subset → Lean state-passing definitions (Gen/CacheSkeleton.lean); anything outside the subset becomes an opaque step of an arbitrary oracle U; tied to the hand-written CacheSpec by theorem C17.tie",
+    "the driver harness/cmd/vprof: private HOME (child uid without passwd entry), fake `go tool objdump` that prints in chunks, fails, is absent, and reports chunk boundaries so that the profiler is killed exactly there",
+]
+
+
 def policy_stream(profile, quick, thorough, corpus=None, seeds=3, extra=None):
     d = {"stream": "policy", "profile": profile, "quick": quick, "thorough": thorough, "thorough_seeds": seeds}
     if corpus:
@@ -198,5 +205,23 @@ PROPS = {
         "assumptions": ["PARTIAL: go-ucfg (yaml and json packages), gopkg.in/yaml.v2 and encoding/json are exercised (exactly as cmd/sandbox parsePolicy uses them), not modelled",
                         "go-ucfg's json package decodes numbers as float64: 64-bit operands above 2^53 are rounded there (2^64-1 becomes 2^63). This third-party path is outside the documented YAML path; the harness predicts the rounding exactly and counts it (distribution tag ucfg-json:float64-rounding…); JSON text read through the YAML loader is exact",
                         "policies with an empty condition list or without default_action are outside the generated set (the loader rejects `arguments: []`; a missing default_action reads as kill_thread)"],
+    },
+    "C17": {
+        "lean": ["Seccomp.Proofs.C17"],
+        "streams": [{"tool": "vprof", "stream": "profiler", "profile": "cache", "quick": 60, "thorough": 1500, "thorough_seeds": 2, "args": ["-profile", "cache"], "timeout": 1500}],
+        "trusted": CACHE_TRUST,
+        "assumptions": ["rename(2) replaces the cache path atomically: at every instant it holds its previous content or the complete content of the temporary file (Model/Cache.lean osRename; an assumption about the file system, not proved)",
+                        "a file is identified with its path; writes to one path do not change another; bytes buffered in the bufio.Writer are lost at a crash, bytes handed to write(2) are in the file (no torn or reordered page-cache write-back after a machine crash is modelled: the crash is a process crash)",
+                        "SHA-256 identifies the binary and the disassembly is a function of the binary (theorem hypothesis `listing = L hash`)",
+                        "crash points on the real binary are sampled (SIGKILL at the 7 chunk boundaries of the disassembler's output, disassembler failing after j chunks, missing tool, rebuilt binary); crash points inside Flush/Close/Rename and I/O faults are covered by the theorem on the model only"],
+    },
+    "C18": {
+        "lean": ["Seccomp.Proofs.C18"],
+        "streams": [{"tool": "vprof", "stream": "profiler", "profile": "profile", "quick": 600, "thorough": 20000, "thorough_seeds": 2, "args": ["-profile", "profile"], "timeout": 3000},
+                    {"tool": "vprof", "stream": "profiler", "profile": "overlap", "quick": 200, "thorough": 5000, "thorough_seeds": 1, "args": ["-profile", "overlap"], "timeout": 3000}],
+        "trusted": CBPF_TRUST + ["the driver harness/cmd/vprof (synthetic listings, flag spellings, YAML read-back through go-ucfg exactly as cmd/sandbox parsePolicy, go/parser for the code output)",
+                                 "disasm.ExtractSyscalls supplies the found sites of each synthetic listing (its own correctness is C16)"],
+        "assumptions": ["sort.Strings orders byte-wise; Lean's String order is by code point, which is the same order on valid UTF-8 (all table names are ASCII)",
+                        "overlapping blacklist / allow list (outside the property's 'disjoint' clause) is checked in its own stream against the documented behaviour 'allow: always include them in the profile'"],
     },
 }
